@@ -330,11 +330,18 @@ func c10Bypass(w *core.World, id string) []core.Result {
 	construct := "DOM:" + drain + ":bypass"
 	// the Add that is not fed by groupPodsByPriority
 	var bypass ssa.Value
-	for _, s := range w.Sites(fn, regexp.MustCompile(`^call \(\*tor\.Queue\)\.Add\(\$0\.evictionQueue, \$3, phi\(`), false) {
-		bypass = s.(*ssa.Call).Call.Args[2]
+	for _, s := range w.Sites(fn, regexp.MustCompile(`^call \(\*tor\.Queue\)\.Add\(\$0\.evictionQueue, \$3, `), false) {
+		if a := s.(*ssa.Call).Call.Args[2]; !strings.Contains(w.Render(a), "groupPodsByPriority(") {
+			bypass = a
+		}
 	}
 	if bypass == nil {
 		return []core.Result{core.Bad(id, "DOM", construct, w.Pos(fn.Pos()), "vacuous: the tier-bypassing Add(deleteEligible) was not found")}
+	}
+	// the split may live in a private helper that returns the two batches
+	if h, rv, leave, ok := w.EnterHelper(fn, bypass); ok {
+		defer leave()
+		fn, bypass = h, rv
 	}
 	g := G(`+^tor\.needsForceDelete\(lo\.Filter\[\*corev1\.Pod, \[\]\*corev1\.Pod\]\(utils/node\.GetPods\(.*\)\[.*\], \$3, \$0\.clock\)$`)
 	n := 0
